@@ -9,6 +9,8 @@ import (
 	"os"
 	"sort"
 	"sync"
+	"sync/atomic"
+	"time"
 
 	builder "github.com/acekingke/yaccgo/Builder"
 	lalr "github.com/acekingke/yaccgo/LALR"
@@ -26,9 +28,12 @@ type Result struct {
 	Stdout string
 	Err    error       // error returned
 	Panic  interface{} // recovered panic value
+	Hung   bool        // yaccgo did not return within BuildDeadline
 }
 
-func (r *Result) Accepted() bool { return r.Err == nil && r.Panic == nil && r.Root != nil }
+func (r *Result) Accepted() bool {
+	return !r.Hung && r.Err == nil && r.Panic == nil && r.Root != nil
+}
 
 func (r *Result) Diagnostic() string {
 	if r.Err != nil {
@@ -64,9 +69,35 @@ func Capture(f func()) (out string) {
 	return
 }
 
+// hung is set once an in-process call into yaccgo did not return in time; the
+// goroutine stuck inside it holds the lock and the redirected stdout, so every
+// later call gives up at once (the unit then ends quickly with an
+// infrastructure problem instead of sitting out its whole time limit).
+var hung atomic.Bool
+
+// BuildDeadline bounds one in-process ParseAndBuild (normal: about a millisecond).
+var BuildDeadline = 60 * time.Second
+
 // Build runs ParseAndBuild on text. debug switches utils.DebugFlags (the
-// `yaccgo debug` listing) for the duration of the call.
+// `yaccgo debug` listing) for the duration of the call. When yaccgo does not
+// return within BuildDeadline the result has Hung set (termination is C13's
+// property, decided there with a killable worker process).
 func Build(text string, debug bool) *Result {
+	if hung.Load() {
+		return &Result{Hung: true}
+	}
+	ch := make(chan *Result, 1)
+	go func() { ch <- buildLocked(text, debug) }()
+	select {
+	case r := <-ch:
+		return r
+	case <-time.After(BuildDeadline):
+		hung.Store(true)
+		return &Result{Hung: true}
+	}
+}
+
+func buildLocked(text string, debug bool) *Result {
 	mu.Lock()
 	defer mu.Unlock()
 	res := &Result{}
@@ -365,13 +396,32 @@ type GenResult struct {
 	Err    error
 	Panic  interface{}
 	Stdout string
+	Hung   bool
 }
 
-func (r GenResult) Failed() bool { return r.Err != nil || r.Panic != nil }
+func (r GenResult) Failed() bool { return r.Hung || r.Err != nil || r.Panic != nil }
 
 // Generate calls the same builder entry points as the CLI (yaccgo/command.go)
 // with the same global mode switches. variant: go, go-u, go-o, go-ou, ts.
 func Generate(text, variant, outfile string) GenResult {
+	if hung.Load() {
+		return GenResult{Hung: true}
+	}
+	ch := make(chan GenResult, 1)
+	go func() { ch <- generateLocked(text, variant, outfile) }()
+	select {
+	case r := <-ch:
+		return r
+	case <-time.After(BuildDeadline):
+		hung.Store(true)
+		return GenResult{Hung: true}
+	}
+}
+
+// Hung reports whether an earlier in-process call is stuck inside yaccgo.
+func Hung() bool { return hung.Load() }
+
+func generateLocked(text, variant, outfile string) GenResult {
 	mu.Lock()
 	defer mu.Unlock()
 	var res GenResult
